@@ -166,7 +166,7 @@ def check_task(task, st, ctxs):
         base_keys = [k for k in seen if k == () or (len(k) > 1 and k[1] is True) or (len(k) > 2 and k[2] is False and k[0] != 'chacha')]
         for k in base_keys:
             for notes in seen[k]:
-                plain = [x for x in notes if 'Terrapin' not in x[1]]
+                plain = [x for x in notes if T.TERRAPIN_NOTE not in x[1]]
                 if sorted(plain) != lnotes:
                     st.violation('lookup-differs:%s:%s' % (kindtag, cat), {'task': list(task), 'lookup': lnotes, 'audit': list(notes), 'context': list(k)})
                     break
